@@ -8,11 +8,12 @@ import FeVerif.Driver.FileIndex
 import FeVerif.Driver.Angle
 import FeVerif.Driver.DataVersion
 import FeVerif.Driver.Align
+import FeVerif.Driver.Numpy
 
 namespace FeVerif
 
 def dispatchers : List (String → List String → Option String) :=
-  [dispatchFrame, dispatchIndexer, dispatchFileIndex, dispatchAngle, dispatchDataVersion, dispatchAlign]
+  [dispatchFrame, dispatchIndexer, dispatchFileIndex, dispatchAngle, dispatchDataVersion, dispatchAlign, dispatchNumpy]
 
 def dispatch (line : String) : String :=
   match line.splitOn " " with
